@@ -56,6 +56,19 @@ func c13Run(line string) string {
 		if err := json.Unmarshal([]byte(f[1]), &u); err != nil {
 			return "err"
 		}
+		// decoding must not depend on what the receiver held before: direct call on dirty
+		// receivers, and encoding/json re-using a non-nil pointer field
+		for _, dirty := range []Uint128{{Upper: ^uint64(0), Lower: ^uint64(0)}, {Upper: 1, Lower: 0}, {Upper: 0, Lower: 7}} {
+			d := dirty
+			if err := d.UnmarshalJSON([]byte(f[1])); err != nil || d != u {
+				return fmt.Sprintf("receiver-dependent fresh=%d/%d dirty=%d/%d", u.Upper, u.Lower, d.Upper, d.Lower)
+			}
+		}
+		type holder struct{ V *Uint128 }
+		h := holder{V: &Uint128{Upper: 9, Lower: 9}}
+		if err := json.Unmarshal([]byte(`{"V":`+f[1]+`}`), &h); err != nil || h.V == nil || *h.V != u {
+			return "receiver-dependent holder"
+		}
 		return c13Show(&u)
 	case "scale":
 		u, err := NewUint128(vhUnhex(f[1]))
